@@ -1,4 +1,5 @@
 """C02 - General (non-convex) polyhedron measures are exact."""
+from .. import prism_eval
 from .. import voxel_eval as ve
 
 RULE = ("TLC enumerates every manifold face-connected voxel solid with <= MaxCells cells in a box (spec/Voxel3.tla; "
@@ -6,7 +7,10 @@ RULE = ("TLC enumerates every manifold face-connected voxel solid with <= MaxCel
         "#exposed squares, centroid and second moments by summing unit cubes, and proves in the spec that the coded "
         "area*offset volume, Eberly centroid and signed Kallay inertia over the surface triangulation equal them; the "
         "boundary mesh of every solid is replayed into Polyhedron under rational placements and cyclic shifts of the "
-        "face lists; distinct = (cell set, placement, shift); non-trivial = not a single cube at the identity")
+        "face lists; spec/Prism3.tla adds extruded non-convex lattice polygons (named combs, saw, spiral, zig-zag, star and "
+        "randomly grown ones) with caps cut into the triangles of the growth triangulation, exact measures by Fubini from the "
+        "polygon's exact moments and the T1 theorem that the surface-triangle sums equal them; "
+        "distinct = (cell set, placement, shift) / (prism, placement, shifts); non-trivial = not a single cube at the identity")
 
 
 def run(ctx):
@@ -19,6 +23,14 @@ def run(ctx):
     cases = ve.build_cases(recs, ["measures"], ctx.tier, ctx.seed, 1 if quick else 5)
     ve.replay(ctx, cases)
     ctx.extra["solids"] = len(recs)
+    # extruded simple polygons with triangulated caps (spec/Prism3.tla): prisms over named combs / saw / spiral / zig-zag
+    # polygons and over randomly grown lattice polygons; every face is convex, the solid is far from star-shaped
+    prism_eval.t1(ctx, 8, 0, "NamedSmall" if quick else "Named", [1, 3])
+    precs = prism_eval.emit(ctx, 8, 0, "NamedSmall" if quick else "Named", [2] if quick else [1, 3])
+    grown = prism_eval.emit(ctx, 4, 10, "Tri0", [1], simulate=2 if quick else 12, depth=9)
+    precs += prism_eval.pick(grown, 8 if quick else 150, ctx.seed)
+    ctx.extra["prisms_with_triangulated_caps"] = len(precs)
+    prism_eval.replay(ctx, prism_eval.build_cases(precs, ctx.tier, ctx.seed, variant="tri"))
     return ctx.finish(rule=RULE, assumptions=[
         "inputs are voxel-solid boundary meshes (unit-square faces) under rational similarity placements",
         "tolerances of DESIGN.md 4.3"])
